@@ -218,6 +218,9 @@ def cuts_for(S, system, im, seed, maxn):
     else:
         mine = INSPECTOR_POINTS.get(system.name, [])
         own = []
+    from vlib import lits
+    mine = list(mine) + [w for v in lits.new('oslo_utils/imageutils/format_inspector.py')['ints']
+                         for w in (v - 1, v, v + 1) if 0 < w < L][:12]
     budget_b = max(4, maxn // 2)
     g1 = spread(bounds, budget_b)
     g2 = list(mine)
